@@ -107,7 +107,7 @@ def coq_assumptions(pid):
     theorems = re.findall(r"^(?:Theorem|Corollary)\s+(\w+)", src, flags=re.M)
     printed = re.findall(r"^Print Assumptions\s+(\w+)", src, flags=re.M)
     with Lock("coq"):
-        rc, out = sh(["coqc", "-Q", ".", "Zog", "-w", "-notation-overridden,-deprecated-syntactic-definition,-deprecated",
+        rc, out = sh(["coqc", "-Q", ".", "Zog", "-w", "-notation-overridden,-deprecated-syntactic-definition,-deprecated,-abstract-large-number",
                       "Properties/%s.v" % pid], cwd=COQ, timeout=600)
     closed = out.count("Closed under the global context")
     axioms = []
@@ -149,7 +149,7 @@ def parse_R(out):
 
 
 def coqc_case(path):
-    rc, out = sh(["coqc", "-Q", COQ, "Zog", "-w", "-notation-overridden,-deprecated-syntactic-definition,-deprecated", os.path.basename(path)],
+    rc, out = sh(["coqc", "-Q", COQ, "Zog", "-w", "-notation-overridden,-deprecated-syntactic-definition,-deprecated,-abstract-large-number", os.path.basename(path)],
                  cwd=os.path.dirname(path), timeout=900)
     return path, rc, out
 
